@@ -664,8 +664,9 @@ def _edns_option(b):
         # so a text that still ends in NUL afterwards is not a value it keeps stable; the domain
         # is texts without trailing NULs, optionally NUL-terminated once on the wire
         tb = tb.rstrip(b"\x00")
-        if b.draw(st.integers(0, 7)) == 0:
-            tb += b"\x00"
+        if b.draw(st.integers(0, 5)) == 0:
+            # NUL-terminated on the wire, once or several times (D61): the decoder drops them all
+            tb += b"\x00" * b.draw(st.sampled_from([1, 1, 2, 3]))
             b.flags.add("normalizing")
         v = struct.pack("!H", b.draw(st.one_of(st.integers(0, 30), u_int(16)))) + tb
     elif code == 10:
